@@ -15,15 +15,19 @@
 EXTENDS LlcpResolve, Json, IOUtils, TLCExt, SequencesExt
 
 VARIABLES tid, l
-tvars == <<th, reqs, sent, cache, up, tid, l>>
+tvars == <<th, reqs, sent, out, snl, cache, up, tid, l>>
 
 Traces == ndJsonDeserialize(IOEnv.TRACE_FILE)
 T == Traces[tid].ev
 
-TraceNames == {"n1", "n2", "n3", "n4", "wk"}
-TraceThreads == {"r1", "r2", "r3"}
+TraceNames == {"n1", "n2", "n3", "n4", "wk", "L70a", "L70b", "S16", "L60a", "L60b", "L60c", "L120", "S3a", "S3b"}
+TraceThreads == {"r1", "r2", "r3", "r4"}
+\* name lengths in octets (bind/c17_resolve.py REAL)
+TraceLen == [n \in TraceNames |-> CASE n \in {"L70a", "L70b"} -> 70 [] n = "S16" -> 16 [] n \in {"L60a", "L60b", "L60c"} -> 60
+                                     [] n = "L120" -> 120 [] n \in {"S3a", "S3b"} -> 3 [] OTHER -> 15]
 \* what the binding's peer binds: n1 -> 16, n2 -> 17 (first free named addresses), wk -> 4, n3 and n4 not bound
-TracePeer == [n \in TraceNames |-> CASE n = "n1" -> 16 [] n = "n2" -> 17 [] n = "wk" -> 4 [] OTHER -> 0]
+TracePeer == [n \in TraceNames |-> CASE n = "n1" -> 16 [] n = "n2" -> 17 [] n = "wk" -> 4 [] n = "L70a" -> 18 [] n = "L70b" -> 19
+                                      [] n = "S16" -> 20 [] n = "L60a" -> 21 [] n = "L120" -> 22 [] OTHER -> 0]
 
 TInit == tid \in 1..Len(Traces) /\ l = 1 /\ Init
 
@@ -35,8 +39,8 @@ SameBag(x, y) == Len(x) = Len(y) /\ \A n \in TraceNames :
                     Cardinality({i \in DOMAIN x : x[i] = n}) = Cardinality({i \in DOMAIN y : y[i] = n})
 
 GCall    == IsEv("Call") /\ th[Ev.t].pc = "idle" /\ Set(CallR(State, Ev.t, Ev.n))
-GCollect == IsEv("Collect") /\ Collect /\ [i \in DOMAIN reqs |-> reqs[i].n] = Ev.names
-GDeliver == IsEv("Deliver") /\ \E A \in SUBSET sent :
+GCollect == IsEv("Collect") /\ Collect /\ snl' = Ev.names
+GDeliver == IsEv("Deliver") /\ \E A \in SUBSET out :
                 /\ SameBag(NamesOf(A), [i \in DOMAIN Ev.ans |-> Ev.ans[i][1]])
                 /\ \A i \in DOMAIN Ev.ans : Ev.ans[i][2] = PeerSnl[Ev.ans[i][1]]          \* the peer answers from its table
                 /\ Deliver(A)
@@ -51,16 +55,19 @@ GReturn  == /\ IsEv("Return")
                /\ Set(ReturnR(s1, Ev.t))
 Guarded == GCall \/ GCollect \/ GDeliver \/ GLinkEnd \/ GReturn
 
-PostState == [th |-> th', reqs |-> reqs', sent |-> sent', cache |-> cache', up |-> up']
-InvNames == <<"NoLostWakeup", "RequestOut">>
+PostState == [th |-> th', reqs |-> reqs', sent |-> sent', out |-> out', snl |-> snl', cache |-> cache', up |-> up']
+InvNames == <<"NoLostWakeup", "RequestOut", "Recorded", "SnlFits">>
 InvP(n) == CASE n = "NoLostWakeup" -> NoLostWakeupP(PostState)
              [] n = "RequestOut"   -> RequestOutP(PostState)
+             [] n = "Recorded"     -> RecordedP(PostState)
+             [] n = "SnlFits"      -> SnlFitsP([PostState EXCEPT !.snl = IF Ev.a = "Collect" THEN Ev.names ELSE @])
 AllInv == \A i \in DOMAIN InvNames : InvP(InvNames[i])
 Real == Guarded /\ AllInv
 
 Expect == IF Ev.a = "Return" /\ th[Ev.t].pc \in {"woken", "ret"}
           THEN LET s1 == IF th[Ev.t].pc = "woken" THEN WakeR(State, Ev.t, TRUE) ELSE State
                IN <<s1.th[Ev.t].pc, s1.th[Ev.t].n, IF s1.th[Ev.t].pc = "ret" THEN s1.th[Ev.t].ret ELSE PeerSnl[th[Ev.t].n]>>
+          ELSE IF Ev.a = "Collect" /\ reqs # <<>> THEN <<"expected-SDREQ", CollectR(State).snl, "queue", [i \in DOMAIN reqs |-> reqs[i].n]>>
           ELSE <<"-">>
 Why == IF ~ENABLED Guarded THEN <<"guard", Expect>>
        ELSE <<"inv", SelectSeq(InvNames, LAMBDA n : ~ENABLED (Guarded /\ InvP(n)))>>
@@ -70,7 +77,7 @@ Stuck ==
     /\ ~ENABLED Real
     /\ PrintT(<<"STUCK", Traces[tid].id, l, Ev.a, Why>>)
     /\ l' = Len(T) + 2
-    /\ UNCHANGED <<th, reqs, sent, cache, up, tid>>
+    /\ UNCHANGED <<th, reqs, sent, out, snl, cache, up, tid>>
 
 TNext == Real \/ Stuck
 TSpec == TInit /\ [][TNext]_tvars
